@@ -1,5 +1,5 @@
 (* C04 — Experiments cannot wedge: quiescence implies a verdict; no hot loop. *)
-From KV Require Import Base.Prelude Base.Cond Model.World Proofs.WorldPlan Proofs.EqbRefl Proofs.WorldInv2 Proofs.WorldInv5 Proofs.WorldQuiet Proofs.F18 Proofs.WorldSucc Proofs.WorldCalm.
+From KV Require Import Base.Prelude Base.Cond Model.World Proofs.WorldPlan Proofs.EqbRefl Proofs.WorldInv2 Proofs.WorldInv5 Proofs.WorldQuiet Proofs.F18 Proofs.WorldSucc Proofs.WorldCalm Proofs.WorldRestart.
 Open Scope Z_scope.
 
 (* The trial controller is never what wedges an experiment: a created, non-completed trial whose job is absent, or
@@ -37,23 +37,20 @@ Print Assumptions C04_no_write_when_unchanged.
 Theorem C04_no_wedge : forall w e m,
   Inv w -> 1 <= c_par (w_cfg w) -> quiescent w -> env_done w ->
   w_exp w = Some e -> e_max e = Some m -> c_par (w_cfg w) <= m ->
-  (forall s, w_sug w = Some s -> NoDup (ss_names (s_st s)) /\ s_is (s_st s) SSucceeded = false) ->
+  (forall s, w_sug w = Some s -> NoDup (ss_names (s_st s)) /\
+             (s_is (s_st s) SSucceeded = true -> c_resume (w_cfg w) = FromVolume /\ s_restarting (s_st s) = false)) ->
   e_completed (e_st e) = true.
 Proof. exact quiescent_completed. Qed.
 Print Assumptions C04_no_wedge.
 
-(* The statement without the "suggestion not Succeeded" hypothesis is false of the model: a reachable (hence invariant-
-   satisfying), quiescent state with finished environment, distinct assignment names, maxTrialCount 2 and no verdict.
-   The history that reaches it is replayed on the real reconcilers by every run of the C04 check (corpus/WORLD), where it
-   ends in the same state: known finding F18. *)
-Theorem C04_no_wedge_needs_hypothesis :
-  exists c acts w e m,
-    valid_cfg c /\ no_teardown acts /\ w = run c acts /\ Inv w /\ 1 <= c_par (w_cfg w) /\ quiescent w /\ env_done w /\
-    w_exp w = Some e /\ e_max e = Some m /\ c_par (w_cfg w) <= m /\
-    (forall s, w_sug w = Some s -> NoDup (ss_names (s_st s))) /\
-    e_completed (e_st e) = false.
-Proof. exact f18_refutes. Qed.
-Print Assumptions C04_no_wedge_needs_hypothesis.
+(* The history of the (repaired) finding F18 -- an experiment reconcile on a stale completed experiment marks the restarted
+   suggestion Succeeded -- no longer ends in a wedge: the suggestion is restarted, trial 2 runs and the experiment completes again. *)
+Theorem C04_f18_history_repaired :
+  exists e s, w_exp f18_w = Some e /\ e_max e = Some 2 /\ e_completed (e_st e) = true /\ n_trials (es_counts (e_st e)) = 2 /\
+              w_sug f18_w = Some s /\ ss_names (s_st s) = [1%nat; 2%nat] /\ s_is (s_st s) SSucceeded = true /\
+              map t_name (w_trials f18_w) = [1%nat; 2%nat].
+Proof. exact f18_repaired. Qed.
+Print Assumptions C04_f18_history_repaired.
 
 (* Under resumePolicy Never and LongRunning the hypothesis IS an invariant of every reachable state: a Succeeded
    suggestion means the experiment carries its verdict (and the policy is Never; under LongRunning the suggestion is
@@ -123,6 +120,21 @@ Theorem C04_no_wedge_no_edit_premises_satisfiable :
               e_completed (e_st e) = true.
 Proof. exact no_wedge_no_edit_premises_hold. Qed.
 Print Assumptions C04_no_wedge_no_edit_premises_satisfiable.
+
+(* With spec edits allowed as well (after the repair of F18): every resume policy, every history without teardown --
+   environment events, faults, aborts, cache lag AND raises of maxTrialCount --: at rest with a finished environment the
+   experiment carries a verdict.  Only assumption: the algorithm never returned the same trial name twice.  Never: a
+   Succeeded suggestion implies a verdict (SuccInv); LongRunning: the suggestion is never Succeeded; FromVolume: a
+   Succeeded suggestion next to a running experiment is not marked restarting (SrInv), so the experiment reconcile plans its
+   restart and the state is not quiescent. *)
+Theorem C04_no_wedge_all : forall c acts e m,
+  valid_cfg c -> no_teardown acts ->
+  quiescent (run c acts) -> env_done (run c acts) ->
+  w_exp (run c acts) = Some e -> e_max e = Some m ->
+  (forall s, w_sug (run c acts) = Some s -> NoDup (ss_names (s_st s))) ->
+  e_completed (e_st e) = true.
+Proof. exact no_wedge_reachable_all. Qed.
+Print Assumptions C04_no_wedge_all.
 
 (* No hot loop: in a quiescent state a further reconcile of any controller attempts no write and changes nothing in the store. *)
 Theorem C04_no_hot_loop : forall w c key resp,
